@@ -296,7 +296,7 @@ Lemma index_points :
     (bind (put_index_prog id out size tm) Fi) fs1.
 Proof.
   pose proof G0_same as Gs.
-  unfold put_index_prog. rewrite open_index. fold pi e.
+  rewrite put_index_prog_eq; unfold put_index_body. rewrite open_index. fold pi e.
   cbn [bind all_points].
   assert (forall ok fs, fst (run_seq (Fi ok) fs) = fs) as Hfi.
   { intros ok fs. destruct (Fi_ret ok) as [v ->]. reflexivity. }
@@ -478,7 +478,7 @@ Proof. intros Hs. apply firstn_pred_last. exact Hs. Qed.
 Lemma rewrite_points : fs0 pd <> Some d ->
   all_points Phi Psi (bind (copy_rewrite H rd out size false) F) fs0.
 Proof.
-  intros Hinc. unfold copy_rewrite. fold pd. rewrite open_copy_small. cbn [bind all_points].
+  intros Hinc. rewrite copy_rewrite_eq; unfold copy_rewrite_body. fold pd. rewrite open_copy_small. cbn [bind all_points].
   destruct Ffalse as [vF EF].
   set (c1 := opened (fs0 pd) false).
   set (fs1 := match fs0 pd with Some _ => fs0 | None => upd fs0 pd (Some []) end).
@@ -630,7 +630,7 @@ Theorem put_faulty_post_honest : forall chunks fs id tm b,
   put_post H id d fs (fst (fst (run_f b (put_prog H id (honest_reader chunks) tm) fs))).
 Proof.
   intros chunks fs id tm b d Li Hdata Hb.
-  unfold put_prog. cbn [honest_reader rd_seek1 rd_ok1 rd_pass1 negb orb]. fold d.
+  rewrite put_prog_eq; unfold put_prog_body. cbn [honest_reader rd_seek1 rd_ok1 rd_pass1 negb orb]. fold d.
   set (pd := DatP (H d)). set (pi := IdxP id).
   set (Fi := fun ok2 : bool => Ret (if ok2 then PutOk (H d) (length d) else PutFailed (H d) (length d))).
   set (Fc := fun ok : bool => if ok then bind (put_index_prog id (H d) (length d) tm) Fi else Ret (PutFailed (H d) (length d))).
@@ -679,7 +679,7 @@ Lemma seq_copy_rewrite_any : forall rd fs,
   exists fs' r, run_seq (copy_rewrite H rd (H d) (length d) false) fs = (fs', r) /\ agree_except pd fs fs' /\
                 ((r = true /\ fs' pd = Some d) \/ (r = false /\ fs' pd = Some [])).
 Proof.
-  intros rd fs d pd Hcol Hdata. unfold copy_rewrite. fold pd. rewrite open_copy_small.
+  intros rd fs d pd Hcol Hdata. rewrite copy_rewrite_eq; unfold copy_rewrite_body. fold pd. rewrite open_copy_small.
   set (c1 := opened (fs pd) false).
   set (fs1 := match fs pd with Some _ => fs | None => upd fs pd (Some []) end).
   assert (step (OOpen pd true false) fs = (fs1, ROk)) as Eopen by (cbn [step]; unfold fs1; destruct (fs pd); reflexivity).
@@ -750,7 +750,7 @@ Theorem put_seq_post : forall rd fs id tm,
   reader_no_collision rd -> data_ok d (fs (DatP (H d))) ->
   put_post H id d fs (fst (put H fs id rd tm)).
 Proof.
-  intros rd fs id tm d Li Hcol Hdata. unfold put, put_prog.
+  intros rd fs id tm d Li Hcol Hdata. unfold put; rewrite put_prog_eq; unfold put_prog_body.
   assert (put_post H id d fs fs) as Psame.
   { split; [auto|]. split; [exact Hdata|]. split; [auto|]. left; reflexivity. }
   destruct (negb (rd_seek1 rd) || negb (rd_ok1 rd)); [exact Psame|]. fold d.
@@ -928,7 +928,7 @@ Theorem put_faulty_post_b_honest : forall chunks fs id tm b,
   put_post_b id d tm fs (fst (fst (run_f b (put_prog H id (honest_reader chunks) tm) fs))).
 Proof.
   intros chunks fs id tm b d Hdata.
-  unfold put_prog. cbn [honest_reader rd_seek1 rd_ok1 rd_pass1 negb orb]. fold d.
+  rewrite put_prog_eq; unfold put_prog_body. cbn [honest_reader rd_seek1 rd_ok1 rd_pass1 negb orb]. fold d.
   set (pd := DatP (H d)). set (pi := IdxP id).
   set (Fi := fun ok2 : bool => Ret (if ok2 then PutOk (H d) (length d) else PutFailed (H d) (length d))).
   set (Fc := fun ok : bool => if ok then bind (put_index_prog id (H d) (length d) tm) Fi else Ret (PutFailed (H d) (length d))).
@@ -971,7 +971,7 @@ Theorem put_seq_post_b : forall rd fs id tm,
   reader_no_collision H rd -> data_ok d (fs (DatP (H d))) ->
   put_post_b id d tm fs (fst (put H fs id rd tm)).
 Proof.
-  intros rd fs id tm d Hcol Hdata. unfold put, put_prog.
+  intros rd fs id tm d Hcol Hdata. unfold put; rewrite put_prog_eq; unfold put_prog_body.
   assert (put_post_b id d tm fs fs) as Psame.
   { split; [auto|]. split; [exact Hdata|]. split; [auto|]. left; reflexivity. }
   destruct (negb (rd_seek1 rd) || negb (rd_ok1 rd)); [exact Psame|]. fold d.
